@@ -251,6 +251,11 @@ def run(ctx):
     except Exception as e:  # noqa
         ctx.coverage["k7_error"] = str(e)[-500:]
 
+    # ---- curated documents must generate (a curated case that silently fails to convert checks nothing)
+    cur_bad = [ex.stream[i] for i in range(len(ex.docs)) if ex.stream[i].startswith("curated:") and ex.world.status[i] != "ok"]
+    ctx.oblige("every curated document of corpus/faithful generates and compiles (%d documents)" %
+               len([1 for x in ex.stream if x.startswith("curated:")]), not cur_bad, json.dumps(cur_bad)[:800])
+
     # ---- the validator on the real IR of every supported-stream document
     sup_ids = [i for i, s in enumerate(ex.stream) if s == "supported" and i in ex.dumps]
     try:
